@@ -41,21 +41,39 @@ static int run_history(const char *q, sqfs_super_t *super, sqfs_file_t *file, sq
 	if (sqfs_xattr_reader_load(xr, super, file, ucmp) || sqfs_xattr_reader_load(fresh, super, file, ucmp)) { ok = -1; goto out; }
 	while (*p == ' ') ++p;
 	while (*p && *p != ';') {
-		if (sscanf(p, "%d:%d:%d", &i, &n, &k) != 3) break;
+		int d = 0;
+		if (sscanf(p, "%d:%d:%d:%d", &i, &n, &k, &d) < 3) break;
 		if (i < nino && idx[i] != 0xFFFFFFFF) {
-			sqfs_xattr_id_t desc;
+			sqfs_xattr_id_t desc, other;
 			sqfs_xattr_entry_t *key;
 			sqfs_xattr_value_t *val;
-			int c;
+			sqfs_xattr_t *want = NULL, *w;
+			int c, calls = 0;
+			/* what a fresh reader says about this set: every key / value of the walk is compared with it */
+			if (sqfs_xattr_reader_read_all(fresh, idx[i], &want)) want = NULL;
+			w = want;
+#define MAYBE_DESC() do { if (d && ++calls == d) (void)sqfs_xattr_reader_get_desc(xr, idx[(i + 1) % nino] == 0xFFFFFFFF ? idx[i] : idx[(i + 1) % nino], &other); } while (0)
 			if (sqfs_xattr_reader_get_desc(xr, idx[i], &desc) == 0 && sqfs_xattr_reader_seek_kv(xr, &desc) == 0) {
+				MAYBE_DESC();
 				for (c = 0; c < n && c < (int)desc.count; ++c) {
-					if (sqfs_xattr_reader_read_key(xr, &key)) break;
-					if (sqfs_xattr_reader_read_value(xr, key, &val)) { sqfs_free(key); break; }
+					if (sqfs_xattr_reader_read_key(xr, &key)) { ok = 0; break; }
+					if (w == NULL || strcmp((const char *)key->key, w->key)) ok = 0;
+					MAYBE_DESC();
+					if (sqfs_xattr_reader_read_value(xr, key, &val)) { sqfs_free(key); ok = 0; break; }
+					if (w == NULL || val->size != w->value_len || memcmp(val->value, w->value, val->size)) ok = 0;
+					MAYBE_DESC();
 					sqfs_free(key); sqfs_free(val);
+					if (w) w = w->next;
 				}
-				if (k && c == n && c < (int)desc.count && sqfs_xattr_reader_read_key(xr, &key) == 0)
-					sqfs_free(key);
+				if (k && c == n && c < (int)desc.count) {
+					if (sqfs_xattr_reader_read_key(xr, &key) == 0) {
+						if (w == NULL || strcmp((const char *)key->key, w->key)) ok = 0;
+						sqfs_free(key);
+					} else ok = 0;
+				}
 			}
+#undef MAYBE_DESC
+			sqfs_xattr_list_free(want);
 		}
 		while (*p && *p != ' ' && *p != ';') ++p;
 		while (*p == ' ') ++p;
@@ -64,7 +82,7 @@ static int run_history(const char *q, sqfs_super_t *super, sqfs_file_t *file, sq
 	if (j < 0 || j >= nino || idx[j] == 0xFFFFFFFF) { ok = -1; goto out; }
 	r1 = sqfs_xattr_reader_read_all(xr, idx[j], &l);
 	r2 = sqfs_xattr_reader_read_all(fresh, idx[j], &l2);
-	ok = (r1 == r2) && (r1 != 0 || same_list(l, l2));
+	ok = ok && (r1 == r2) && (r1 != 0 || same_list(l, l2));
 	sqfs_xattr_list_free(l);
 	sqfs_xattr_list_free(l2);
 out:
